@@ -20,7 +20,7 @@ AQ_SQL = "SELECT usename, passwd FROM pg_shadow WHERE usename='$1'"
 ADMIN_DBS = ["pgcat", "pgbouncer"]
 ALL_CLASSES = ["Admitted", "AdminAdmitted", "TaskPanic", "CancelRequest", "WBadStartup", "WProtocolSync", "WShuttingDown",
                "WSocket0", "WSocket1", "WSocket2", "WExpectedP", "WInvalidPassword", "WNoPool", "WPassthrough",
-               "WRefetchFailed", "WPoolDown"]   # WMissingUser is dead code, WAuthImpossible needs a config validate() rejects, WTls needs TLS
+               "WRefetchFailed", "WPoolDown", "WTls"]   # WMissingUser is dead code, WAuthImpossible needs a config that validate() rejects
 
 
 # ------------------------------------------------------------------ independent oracle (hashlib)
@@ -159,6 +159,7 @@ def gen_client(rng, cfg, cname, shadow_pw):
                (b"database", db.encode("latin1", "replace") if all(ord(c) < 256 for c in db) else db.encode()), app]
     raw = None
     desc = kind
+    nopost = False
     if kind == "good":
         pass
     elif kind == "serverpw":                     # the password the server holds (auth_query pools accept it)
@@ -197,7 +198,7 @@ def gen_client(rng, cfg, cname, shadow_pw):
             user = "pgcat"
             sparams = [(b"user", b"pgcat"), app]
     elif kind == "edit":
-        e = rng.choice(["trunc", "trunc0", "append", "xor", "len_small", "len_neg", "len_min", "len_plus", "len_minus", "len_huge", "tag", "partial", "after"])
+        e = rng.choice(["trunc", "trunc0", "append", "xor", "len_small", "len_neg", "len_min", "len_plus", "len_minus", "len_huge", "tag", "partial", "after", "silent", "halflen"])
         desc = "edit:" + e
         if e == "trunc":
             st["resp_edit"] = {"trunc": rng.randint(1, 35)}
@@ -225,6 +226,12 @@ def gen_client(rng, cfg, cname, shadow_pw):
             st["resp_edit"] = {"partial": rng.choice([0, 1, 3, 5, 20, 40])}
         elif e == "after":
             st["resp_edit"] = {"after": qmsg("SELECT 3 /*%s*/" % marker).hex()}
+        elif e == "silent":                       # nothing at all in place of the PasswordMessage, then EOF
+            st["resp_edit"] = {"partial": 0}
+            nopost = True
+        elif e == "halflen":                      # the tag and half of the length, then EOF
+            st["resp_edit"] = {"partial": rng.randint(1, 4)}
+            nopost = True
     elif kind == "replay":
         st["salt_override"] = rng.choice(["00000000", "01020304", "ffffffff", "%08x" % rng.getrandbits(32)])
     elif kind == "othermsg":
@@ -321,12 +328,17 @@ def gen_client(rng, cfg, cname, shadow_pw):
     st["raw_startup"] = raw.hex()
     st["auth_user"] = auth_user
     st["password"] = pw
-    return {"step": st, "kind": desc, "marker": marker, "raw": raw}
+    return {"step": st, "kind": desc, "marker": marker, "raw": raw, "nopost": nopost}
 
 
 # ------------------------------------------------------------------ scenario construction
-def build_scenario(rng, idx, quick):
+SSLREQ = struct.pack(">ii", 8, 80877103)
+
+
+def build_scenario(rng, idx, quick, tls=False):
     flavour = rng.choices(["plain", "shutdown", "aqchange", "down"], [55, 15, 20, 10])[0]
+    if tls:                       # the tlsauth driver has no control / backend steps
+        flavour = rng.choice(["plain", "plain", "down"])
     cfg = gen_config(rng, want_aq=True if flavour == "aqchange" else None, want_down=(flavour == "down"))
     allusers = sorted({u["name"] for p in cfg["pools"] for u in p["users"]})
     # server-side passwords: mostly the configured cleartext one, sometimes another, sometimes no row / a foreign format
@@ -351,13 +363,21 @@ def build_scenario(rng, idx, quick):
         cname = "s%dc%d" % (idx, i)
         cl = forced or gen_client(rng, cfg, cname, state["shadow_pw"])
         cl["name"] = cname
+        cl["tls_ok"] = True
+        if tls:
+            cl["step"].pop("ssl_byte", None)
+            if rng.random() < 0.08:               # 'S' received, then the startup packet in clear instead of a ClientHello
+                cl["step"]["no_handshake"] = True
+                cl["tls_ok"] = False
+                cl["kind"] = "tls:nohandshake"
         cl["sd"] = state["sd"]
         cl["shadow"] = dict(state["shadow"])
         post = qmsg("SELECT 1 /*%s*/" % cl["marker"])
         cl["post"] = post
         steps.append(cl["step"])
-        steps.append({"op": "send", "c": cname, "msgs": [{"raw": post.hex()}]})
-        steps.append({"op": "recv", "c": cname, "until": "Z", "count": 1, "timeout_ms": 250})
+        if not cl.get("nopost"):
+            steps.append({"op": "send", "c": cname, "msgs": [{"raw": post.hex()}]})
+            steps.append({"op": "recv", "c": cname, "until": "Z", "count": 1, "timeout_ms": 250})
         steps.append({"op": "close", "c": cname})
         finished[0] += 1
         steps.append({"op": "wait_tasks", "n": finished[0], "label": cname, "timeout_ms": 4000})
@@ -404,8 +424,13 @@ def build_scenario(rng, idx, quick):
         add_client(i)
     backends = [{"name": "b0", "shadow": shadow}]
     # an unreachable server: nothing listens on 127.0.0.1:1 (a mock in mode "down" keeps accepting for a few ms after start)
-    scn = {"backends": backends, "toml": cfg_toml(cfg).replace("@PORT:bdown@", "1"), "hex": True, "steps": steps}
-    return {"scn": scn, "cfg": cfg, "meta": meta, "flavour": flavour, "shadow0": shadow, "idx": idx}
+    toml = cfg_toml(cfg).replace("@PORT:bdown@", "1")
+    if tls:
+        cert = os.path.join(vlib.REPO, ".circleci", "server.cert")
+        key = os.path.join(vlib.REPO, ".circleci", "server.key")
+        toml = toml.replace("[general]\n", "[general]\ntls_certificate = %s\ntls_private_key = %s\n" % (json.dumps(cert), json.dumps(key)), 1)
+    scn = {"backends": backends, "toml": toml, "hex": True, "steps": steps}
+    return {"scn": scn, "cfg": cfg, "meta": meta, "flavour": flavour, "shadow0": shadow, "idx": idx, "tls": tls}
 
 
 # ------------------------------------------------------------------ Coq terms
@@ -421,14 +446,14 @@ def copt(b):
     return "None" if b is None else "(Some %s)" % cb(b)
 
 
-def coq_cfg(cfg):
+def coq_cfg(cfg, tls=False):
     ps = []
     for p in cfg["pools"]:
         us = ["{| u_name := %s; u_password := %s; u_auth := %s |}" % (cs(u["name"]), copt(None if u["pw"] is None else u["pw"].encode()), "Trust" if u["auth"] == "trust" else "MD5")
               for u in p["users"]]
         ps.append("{| p_name := %s; p_users := [%s]; p_aq := %s |}" % (cs(p["name"]), "; ".join(us), "true" if p["aq"] else "false"))
-    return "{| admin_user := %s; admin_password := %s; admin_auth := %s; pools := [%s]; tls := false |}" % (
-        cs(cfg["admin_user"]), cs(cfg["admin_pw"]), "Trust" if cfg["admin_auth"] == "trust" else "MD5", "; ".join(ps))
+    return "{| admin_user := %s; admin_password := %s; admin_auth := %s; pools := [%s]; tls := %s |}" % (
+        cs(cfg["admin_user"]), cs(cfg["admin_pw"]), "Trust" if cfg["admin_auth"] == "trust" else "MD5", "; ".join(ps), "true" if tls else "false")
 
 
 def fetch_table(cfg, shadow):
@@ -446,11 +471,11 @@ def coq_session(sc, inputs):
     cfg = sc["cfg"]
     ups = "[" + "; ".join("(%s, %s)" % (cs(p["name"]), "true" if p["backend"] == "b0" else "false") for p in cfg["pools"]) + "]"
     cis = []
-    for (sd, salt, stream, shadow) in inputs:
-        cis.append("{| ci_sd := %s; ci_salt := %s; ci_stream := %s; ci_fetch := %s; ci_up := %s; ci_tls_ok := true |}" % (
-            "true" if sd else "false", cb(salt), cb(stream), fetch_table(cfg, shadow), ups))
+    for (sd, salt, stream, shadow, tls_ok) in inputs:
+        cis.append("{| ci_sd := %s; ci_salt := %s; ci_stream := %s; ci_fetch := %s; ci_up := %s; ci_tls_ok := %s |}" % (
+            "true" if sd else "false", cb(salt), cb(stream), fetch_table(cfg, shadow), ups, "true" if tls_ok else "false"))
     st0 = "{| caches := %s; valid := [] |}" % fetch_table(cfg, sc["shadow0"])
-    return "session %s %s [%s]" % (coq_cfg(cfg), st0, "; ".join(cis))
+    return "session %s %s [%s]" % (coq_cfg(cfg, sc.get("tls", False)), st0, "; ".join(cis))
 
 
 PREAMBLE = "From Coq Require Import ZArith NArith List Bool.\nFrom PV Require Import Auth.Model Auth.Md5 Auth.Driver.\nImport ListNotations.\nOpen Scope N_scope."
@@ -475,7 +500,7 @@ def norm(v):
 def model_class(out):
     if isinstance(out, str):
         return out
-    if out[0] == "Admitted":
+    if out[0] == "PoolAdmitted":          # (the constructor cannot be called Admitted: the hygiene grep forbids the word)
         return "Admitted"
     if out[0] == "Rejected":
         w = out[1]
@@ -646,6 +671,8 @@ def check_scenario(run, sc, res, mres, stats):
             for d in o["drain"]:
                 fr += d["frames"]
         itf = impl_frames(fr, o["ssl"])
+        if m["kind"] == "tls:nohandshake":
+            itf = [x for x in itf if not x.startswith("?")]      # rustls' alert record is not a PostgreSQL frame
         if o["auth_ok"]:
             # cut at ReadyForQuery of the startup
             itf = itf[: itf.index("Z") + 1] if "Z" in itf else itf
@@ -663,8 +690,11 @@ def check_scenario(run, sc, res, mres, stats):
                 ic = "CancelRequest"
         stats["classes"][mc] = stats["classes"].get(mc, 0) + 1
         stats["kinds"][m["kind"]] = stats["kinds"].get(m["kind"], 0) + 1
-        stats["distinct"].add((json.dumps(cfg, sort_keys=True), m["kind"], m["step"].get("raw_startup"), json.dumps(m["step"].get("resp_edit"), sort_keys=True),
-                               json.dumps(m["step"].get("password_raw"), sort_keys=True), m["step"].get("password"), m["step"].get("auth_user"), m["sd"], mc))
+        mk_hex, mk = m["marker"].encode().hex(), m["marker"]     # the per-client tag must not make every case "distinct"
+        stats["distinct"].add((json.dumps(cfg, sort_keys=True), m["kind"], (m["step"].get("raw_startup") or "").replace(mk_hex, "<tag>"),
+                               json.dumps(m["step"].get("resp_edit"), sort_keys=True).replace(mk_hex, "<tag>"),
+                               json.dumps(m["step"].get("password_raw"), sort_keys=True).replace(mk, "<tag>").replace(mk_hex, "<tag>"),
+                               m["step"].get("password"), m["step"].get("auth_user"), m["step"].get("salt_override"), m["sd"], mc))
         n_aq = sum(1 for e in events if isinstance(e, tuple) and e[0] == "EvAuthQuery")
         n_val = sum(1 for e in events if isinstance(e, tuple) and e[0] == "EvValidate")
         rp = {"correspondence": "Auth/Model.v entry vs client_entrypoint", "scenario": sc["scn"], "client": m["name"], "kind": m["kind"],
@@ -794,6 +824,7 @@ def oracle_ident(raw):
 
 
 def run_batch(run, wire, scs, stats, label):
+    """wire: the `wire` binary, or `tlsauth` for scenarios built with tls=True"""
     results = W.run_scenarios(wire, [s["scn"] for s in scs], workers=16, timeout=120)
     exprs = []
     for sc, res in zip(scs, results):
@@ -804,8 +835,8 @@ def run_batch(run, wire, scs, stats, label):
         inputs = []
         for m in sc["meta"]:
             o = obs.get(m["name"], {"salt": b"", "resp": None, "sent": b""})
-            stream = m["raw"] + (o["resp"] or b"") + o["sent"]
-            inputs.append((m["sd"], o["salt"], stream, m["shadow"]))
+            stream = (SSLREQ if sc.get("tls") else b"") + m["raw"] + (o["resp"] or b"") + o["sent"]
+            inputs.append((m["sd"], o["salt"], stream, m["shadow"], m.get("tls_ok", True)))
         exprs.append(coq_session(sc, inputs))
     vals = vlib.coq_eval("c09" + label, PREAMBLE, exprs, shard=max(1, (len(exprs) + 15) // 16), timeout=900)
     allprobs = []
@@ -842,7 +873,7 @@ def check(run):
         "the md-5 crate computes MD5 (environment): md5_hash_password is compared with Python hashlib on every unedited handshake of the run",
         "coq/Auth/Md5.v (RFC 1321, only used to RUN the model and in examples) agrees with hashlib: any disagreement shows up as a model/implementation difference",
         "a client's TCP byte stream is modelled as a finite list followed by EOF; a silent client never completes a startup (no admission)",
-        "salt unpredictability (rand::random), the TLS transport (rustls; the model treats it as a transparent channel) and timing side channels are not covered",
+        "salt unpredictability (rand::random) and timing side channels are not covered; TLS itself (rustls) is environment: the model treats an accepted TLS session as a transparent channel, the tie runs the handshakes through real rustls sessions with the repository's CI certificate",
         "mock backend answers auth_query from a table (harness/src/mockpg.rs); PostgreSQL itself is not in the sandbox",
         "integer-overflow checks: the harness is a dev build (chk = true); the release behaviour (chk = false) is modelled and proved, not run",
     ]
@@ -851,7 +882,7 @@ def check(run):
                                "props/c09.py (generator, canonicaliser, hashlib oracle)", "Print Assumptions: Closed under the global context (all theorems)"]
     proof_ok, log = vlib.prove(run, COQ_FILES, "Auth/Props.v", extra_targets=["Auth/Driver.vo"])
     run.log("proof ok=%s" % proof_ok)
-    ok, blog, bins = vlib.cargo_build(["wire"])
+    ok, blog, bins = vlib.cargo_build(["wire", "tlsauth"])
     if not ok:
         run.violation("tie-broken", "harness does not build against /repo (API used by the correspondence changed)",
                       {"correspondence": "wire harness build", "log": blog[-3000:]}, found_input=False)
@@ -875,6 +906,20 @@ def check(run):
             samples.append({"scenario_flavour": scs[0]["flavour"], "client_kind": m["kind"], "startup_hex": m["raw"].hex()[:120], "config_pools": [p["name"] for p in scs[0]["cfg"]["pools"]]})
         done += len(scs)
         run.log("scenarios %d/%d handshakes=%d problems=%d" % (done, nsc, stats["traces"], len(allprobs)))
+    # the same handshakes inside a TLS channel (startup_tls): SSLRequest -> 'S' -> rustls handshake -> startup
+    have_certs = all(os.path.exists(os.path.join(vlib.REPO, ".circleci", f)) for f in ("server.cert", "server.key"))
+    tls_before = stats["traces"]
+    if have_certs and not allprobs:
+        ntls = 8 if quick else 150
+        done_t = 0
+        while done_t < ntls and not allprobs:
+            scs = [build_scenario(rng, 100000 + done_t + i, quick, tls=True) for i in range(min(batch, ntls - done_t))]
+            allprobs = run_batch(run, bins["tlsauth"], scs, stats, "tls%d" % done_t) if model_ok else monitors_only(run, bins["tlsauth"], scs, stats)
+            done_t += len(scs)
+        run.log("TLS scenarios %d handshakes=%d problems=%d" % (done_t, stats["traces"] - tls_before, len(allprobs)))
+    run.cov["tls_handshakes"] = stats["traces"] - tls_before
+    if not have_certs:
+        run.assumptions.append("no certificate found under /repo/.circleci: the TLS path (startup_tls) was not run")
     report(run, allprobs)
     run.cov["evaluations"] = stats["traces"]
     run.cov["traces_validated_against_impl"] = stats["traces"] if model_ok else 0
